@@ -321,6 +321,36 @@ def step (c : Cfg) (g : Graph) (s : St) : Act → Option St
 
 def stepD (c : Cfg) (g : Graph) (s : St) (a : Act) : St := (step c g s a).getD s
 
+/-! ## task trees
+
+`asyncio.create_task` runs the new task in a *copy* of the creating task's context, so
+a task starts with whatever its creator's `_held_scopes` binding shows at that moment.
+`resolution_scope` binds `held + (self,)` on entry and restores the previous binding
+with `reset(token)` on exit (`lock:held-add`, `lock:finally:held-reset` in the source
+shape): the binding is an immutable tuple, nothing a task does later can change what
+another context sees.  So the manager is listed in the context of task `t` exactly
+while `t` is inside the scope it opened. -/
+
+/-- what `_held_scopes.get()` shows in the context of task `t`: is the manager listed? -/
+def heldIn (s : St) (t : Nat) : Bool :=
+  match s.tasks[t]? with
+  | some k => k.owns && k.phase == .active
+  | none => false
+
+/-- Invocation `p` has finished (it resolved its resources -- a parent-workflow step
+with injected resources that now runs a child workflow from its body, user code that
+warmed a resource before a fan-out) and creates a new invocation.  Only a *finished*
+invocation creates tasks here: `partial` and `_Resource.call` themselves create none
+while the scope is open (source shape), so a task that would start inside its
+creator's scope is outside the model (`none`). -/
+def stepFrom (c : Cfg) (g : Graph) (s : St) (p : Nat) (reqs : List Nat) (bare : Bool) : Option St :=
+  match s.tasks[p]? with
+  | some k =>
+    match k.phase with
+    | .done _ => if heldIn s p then none else step c g s (.spawn reqs bare)
+    | _ => none
+  | none => none
+
 def run (c : Cfg) (g : Graph) (acts : List Act) : St := acts.foldl (stepD c g) St.init
 
 /-- Tick until the current task suspends or finishes (driver / witnesses; the
